@@ -109,8 +109,12 @@ FoundConds(qy, mode) == LET P == Pieces(qy, mode)  F == Found(qy, mode) IN {Open
 Parameterizable(qy) == {c \in 1..Len(qy) : qy[c].q /\ \E j \in 1..Len(qy[c].items) : qy[c].items[j] = "h"}
 
 VARIABLES qy, mode, tc, exp, st
-Init == /\ qy \in Queries \cup ExtraQueries /\ mode \in SplitModes /\ st = "init"
-        /\ tc \in (IF \E c \in 1..Len(qy) : qy[c].q /\ \E j \in 1..Len(qy[c].items) : qy[c].items[j] = "a" THEN TextChars ELSE {"a"})
+\* the sampled long queries are explored in one layout only (no extra cuts, letter text)
+Long(q) == q \in ExtraQueries /\ q \notin Queries
+Init == /\ qy \in Queries \cup ExtraQueries
+        /\ mode \in (IF Long(qy) THEN {"none"} ELSE SplitModes)
+        /\ st = "init"
+        /\ tc \in (IF ~Long(qy) /\ \E c \in 1..Len(qy) : qy[c].q /\ \E j \in 1..Len(qy[c].items) : qy[c].items[j] = "a" THEN TextChars ELSE {"a"})
         /\ exp = [found |-> {}, ideal |-> {}, pieces |-> <<>>]
 Step == /\ st = "init" /\ st' = "done" /\ UNCHANGED <<qy, mode, tc>>
         /\ exp' = [found |-> FoundConds(qy, mode), ideal |-> Parameterizable(qy), pieces |-> PiecesTc(qy, mode, tc)]
